@@ -1460,6 +1460,10 @@ class NodeLiteral:
         self.pos = pos
 
     def evaluate(self, environment):
+        if isinstance(self.value, ValueString):
+            # strings can be changed in place (s[i] = ch): hand out a value
+            # of its own, so the literal in the program text stays as written
+            return ValueString(self.value.value)
         return self.value
 
     def __repr__(self):
